@@ -16,6 +16,21 @@
 //! The harness decides nothing: it concretises class strings, calls allsorts under
 //! `vh::sup::guarded`, and projects the returned run (glyph ids, unicodes, placement variants with
 //! their indices) into events.  Trace_Shaper judges them.
+//!
+//! Two class alphabets come from TLC (MC_Shaper): the syllable classes (fam "syl", concretised per
+//! script) and the text shape classes of the default shaper (fam "txt": ligating letter, digit,
+//! ASCII slash, fraction slash, space, mark, joiner ..., see c02_shape/synth.rs).  Fonts: the
+//! repository fonts, seeded corruptions of their layout tables, and the systematically
+//! synthesized fonts of c02_shape/synth.rs ("synth/<name>"), each shaped with every text class
+//! string over its glyph roles.  `o.f` carries facts measured on the returned run (which special
+//! path was reached); they feed the vacuity counters only, never the verdict.
+#[path = "c02_shape/enc_gpos.rs"]
+mod enc_gpos;
+#[path = "c02_shape/enc_gsub.rs"]
+mod enc_gsub;
+#[path = "c02_shape/synth.rs"]
+mod synth;
+
 use allsorts::binary::read::ReadScope;
 use allsorts::font::{Font, MatchingPresentation};
 use allsorts::font_data::FontData;
@@ -29,6 +44,8 @@ use serde_json::{json, Value};
 use std::io::Write;
 use std::sync::atomic::{AtomicBool, AtomicU64, Ordering};
 use std::sync::{Arc, Mutex};
+use std::collections::BTreeMap;
+use synth::{SynthFont, FEAT_NAMES};
 use vh::fontgen::{read_sfnt_dir, tag_str};
 use vh::sup::{guarded, Outcome};
 use vh::util::{read_ndjson, repo_root};
@@ -164,7 +181,17 @@ fn script_spec(tag: &str) -> &'static ScriptSpec {
     SCRIPTS.iter().find(|s| s.tag == tag).unwrap_or_else(|| panic!("no script spec {}", tag))
 }
 
-fn concretise(spec: &ScriptSpec, classes: &[String], salt: u64) -> Vec<u32> {
+#[derive(Clone, Debug)]
+struct Case {
+    txt: bool, // fam "txt": text shape classes of the default shaper; otherwise syllable classes
+    cls: Vec<String>,
+}
+
+fn concretise(spec: &ScriptSpec, case: &Case, salt: u64) -> Vec<u32> {
+    if case.txt {
+        return synth::concretise_text(&case.cls);
+    }
+    let classes = &case.cls;
     let mut out = Vec::new();
     for (pos, c) in classes.iter().enumerate() {
         let cands = spec
@@ -187,6 +214,7 @@ struct FontEntry {
     rel: String, // path relative to tests/fonts
     script: &'static str,
     variable: bool,
+    synth: Option<usize>, // index into synth::catalog()
 }
 
 fn font_entries() -> Vec<FontEntry> {
@@ -236,11 +264,24 @@ fn font_entries() -> Vec<FontEntry> {
                     continue;
                 }
                 let variable = dname == "variable" || fname.contains("-VF");
-                out.push(FontEntry { rel: format!("{}/{}", dname, fname), script, variable });
+                out.push(FontEntry { rel: format!("{}/{}", dname, fname), script, variable, synth: None });
             }
         }
     }
+    for (si, sf) in synth::catalog().iter().enumerate() {
+        out.push(FontEntry { rel: format!("synth/{}", sf.name), script: "latn", variable: sf.fvar, synth: Some(si) });
+    }
     out
+}
+
+fn font_bytes(f: &FontEntry, catalog: &[SynthFont]) -> Vec<u8> {
+    match f.synth {
+        Some(si) => synth::build(&catalog[si]),
+        None => {
+            let path = format!("{}/tests/fonts/{}", repo_root(), f.rel);
+            std::fs::read(&path).unwrap_or_else(|e| panic!("read {}: {}", path, e))
+        }
+    }
 }
 
 // ---- plan ---------------------------------------------------------------------------------------
@@ -253,15 +294,15 @@ struct Job {
     text_script: &'static str,
     script: &'static str, // script tag handed to allsorts
     use_lang: bool,
-    feat: u8,  // 0 Mask default, 1 Mask all, 2 Custom few, 3 Custom empty
+    feat: u8,  // index into synth::FEAT_NAMES
     kern: bool,
+    vert: bool, // glyph_positions(vertical = true)
     tuple: u8, // 0 None, 1 default, 2 off-default (variable fonts only)
     rtl: bool,
     salt: u64,
     text: Option<Vec<u32>>, // explicit text (exec), otherwise concretised from the class string
 }
 
-const FEAT_NAMES: [&str; 4] = ["MaskDefault", "MaskAll", "CustomFew", "CustomEmpty"];
 const TUPLE_NAMES: [&str; 3] = ["none", "default", "off-default"];
 
 fn alien_script(script: &'static str, x: u64) -> &'static str {
@@ -269,13 +310,17 @@ fn alien_script(script: &'static str, x: u64) -> &'static str {
     others[(x % others.len() as u64) as usize]
 }
 
-fn build_plan(tier: &str, seed: u64, cases: &[Vec<String>]) -> (Vec<FontEntry>, Vec<Job>) {
+fn build_plan(tier: &str, seed: u64, cases: &[Case]) -> (Vec<FontEntry>, Vec<Job>) {
     let fonts = font_entries();
+    let catalog = synth::catalog();
     let quick = tier == "quick";
     let mut jobs = Vec::new();
-    // fonts of each script
+    // repository fonts of each script
     let mut by_script: Vec<(&'static str, Vec<usize>)> = Vec::new();
     for (fi, f) in fonts.iter().enumerate() {
+        if f.synth.is_some() {
+            continue;
+        }
         match by_script.iter_mut().find(|(s, _)| *s == f.script) {
             Some((_, v)) => v.push(fi),
             None => by_script.push((f.script, vec![fi])),
@@ -293,15 +338,19 @@ fn build_plan(tier: &str, seed: u64, cases: &[Vec<String>]) -> (Vec<FontEntry>, 
             use_lang: (x >> 4) % 2 == 0,
             feat,
             kern,
+            vert: (x >> 9) % 8 == 0,
             tuple: if f.variable { ((x >> 5) % 3) as u8 } else { 0 },
             rtl: (x >> 7) % 2 == 0,
             salt: x,
             text: None,
         }
     };
-    // Part A: intact fonts
-    for (ci, cls) in cases.iter().enumerate() {
-        let n = cls.len();
+    // Part A: syllable class strings on the intact repository fonts of each script
+    for (ci, case) in cases.iter().enumerate() {
+        if case.txt {
+            continue;
+        }
+        let n = case.cls.len();
         for (si, (_script, fis)) in by_script.iter().enumerate() {
             if n <= 2 {
                 // every font of the script, every feature configuration, kerning alternating
@@ -338,23 +387,102 @@ fn build_plan(tier: &str, seed: u64, cases: &[Vec<String>]) -> (Vec<FontEntry>, 
             }
         }
     }
-    // Part B: corrupted GSUB / GPOS / GDEF / kern / morx
-    let (n_corrupt, n_texts) = if quick { (12u32, 24usize) } else { (60u32, 60usize) };
-    let long_cases: Vec<usize> = cases.iter().enumerate().filter(|(_, c)| c.len() >= 2 && c.len() <= 4).map(|(i, _)| i).collect();
-    if !long_cases.is_empty() {
-        for fi in 0..fonts.len() {
-            for k in 1..=n_corrupt {
-                for t in 0..n_texts {
-                    let x = h(&[seed, fi as u64, k as u64, t as u64, 0xC0]);
-                    let ci = long_cases[(x % long_cases.len() as u64) as usize];
-                    let mut j = mk(fi, ci, k, ((x >> 12) % 4) as u8, (x >> 16) % 2 == 0, x, &fonts);
-                    j.script = fonts[fi].script; // corrupted tables are exercised through their own script
+    // the text class strings
+    let txt: Vec<usize> = cases.iter().enumerate().filter(|(_, c)| c.txt).map(|(i, _)| i).collect();
+    let is_fraction = |c: &Case| c.cls.windows(3).any(|w| w[0] == "Dg" && w[1] == "Sl" && w[2] == "Dg");
+    // Part C: text class strings on the intact repository fonts of the default shaper, under the
+    // feature configurations with a special-cased path (frac, numeric, vertical, alternates, GPOS list)
+    const TXT_CONFIGS: [u8; 6] = [4, 5, 6, 7, 9, 10];
+    if let Some((_, latn)) = by_script.iter().find(|(s, _)| *s == "latn") {
+        for &ci in &txt {
+            let case = &cases[ci];
+            let n = case.cls.len();
+            for &fi in latn {
+                let x = h(&[seed, ci as u64, fi as u64, 0xC]);
+                let push = |feat: u8, x: u64, plain: bool, jobs: &mut Vec<Job>| {
+                    let mut j = mk(fi, ci, 0, feat, (x >> 16) % 2 == 0, x, &fonts);
+                    if plain {
+                        j.script = fonts[fi].script;
+                    }
+                    j.vert = if feat == 6 { (x >> 9) % 2 == 0 } else { (x >> 9) % 8 == 0 };
                     jobs.push(j);
+                };
+                if n <= 3 {
+                    for (k, feat) in TXT_CONFIGS.iter().enumerate() {
+                        push(*feat, h(&[x, k as u64]), false, &mut jobs);
+                    }
+                } else {
+                    // a fraction in the text: always, through the frac configuration and the default script
+                    if is_fraction(case) {
+                        push(4, h(&[x, 40]), true, &mut jobs);
+                        if !quick {
+                            push(1, h(&[x, 41]), true, &mut jobs);
+                        }
+                    }
+                    let keep = match (n, quick) { (4, true) => 4, (4, false) => 1, (5, true) => 64, (5, false) => 8, _ => 96 };
+                    if (x >> 20) % keep == 0 {
+                        push(TXT_CONFIGS[((x >> 12) % 6) as usize], x, false, &mut jobs);
+                    }
                 }
             }
         }
     }
-    // group by font (and corruption) so that a worker loads each font once
+    // Part D: every text class string over the roles of a synthesized font, on that font
+    let alien_cycle: [&'static str; 10] = ["DFLT", "arab", "deva", "khmr", "mymr", "thai", "syrc", "hang", "mlm2", "lao "];
+    for (fi, f) in fonts.iter().enumerate() {
+        let sf = match f.synth { Some(si) => &catalog[si], None => continue };
+        for &ci in &txt {
+            let case = &cases[ci];
+            if !case.cls.iter().all(|c| sf.alphabet.contains(&c.as_str())) {
+                continue;
+            }
+            let n = case.cls.len();
+            let x = h(&[seed, ci as u64, fi as u64, 0xD]);
+            let has_slash = case.cls.iter().any(|c| c == "Sl");
+            if n >= 6 && sf.alphabet.len() > 5 && !has_slash && (x >> 24) % 4 != 0 {
+                continue; // thorough only: the longest strings over the big alphabets are sampled
+            }
+            let all_configs = n <= 3 || (sf.family == "frac" && has_slash && n <= 5);
+            let picks: Vec<usize> = if all_configs { (0..sf.configs.len()).collect() } else { vec![((x >> 3) % sf.configs.len() as u64) as usize] };
+            for k in picks {
+                let y = h(&[x, k as u64]);
+                let mut j = mk(fi, ci, 0, sf.configs[k], (y >> 16) % 2 == 0, y, &fonts);
+                // the first configuration always runs under the font's own script; the others reach the
+                // script shapers (and DFLT) through a foreign script tag once in four
+                j.script = if k > 0 && y % 4 == 0 && sf.family != "extreme" { alien_cycle[((y >> 8) % alien_cycle.len() as u64) as usize] } else { "latn" };
+                j.vert = if sf.family == "vert" { (y >> 9) % 2 == 0 } else { (y >> 9) % 8 == 0 };
+                jobs.push(j);
+            }
+        }
+    }
+    // Part B: corrupted GSUB / GPOS / GDEF / kern / morx
+    let (n_corrupt, n_texts) = if quick { (12u32, 24usize) } else { (60u32, 60usize) };
+    let long_cases: Vec<usize> = cases.iter().enumerate().filter(|(_, c)| !c.txt && c.cls.len() >= 2 && c.cls.len() <= 4).map(|(i, _)| i).collect();
+    let long_txt: Vec<usize> = txt.iter().copied().filter(|&i| cases[i].cls.len() >= 2 && cases[i].cls.len() <= 5).collect();
+    for fi in 0..fonts.len() {
+        let pool: Vec<usize> = match fonts[fi].synth {
+            None => long_cases.clone(),
+            Some(si) => long_txt.iter().copied().filter(|&i| cases[i].cls.iter().all(|c| catalog[si].alphabet.contains(&c.as_str()))).collect(),
+        };
+        if pool.is_empty() || fonts[fi].synth.map_or(false, |si| catalog[si].family == "extreme") {
+            continue; // the fonts with extreme values are shaped as they are only
+        }
+        let n_corrupt = if fonts[fi].synth.is_some() { n_corrupt / 2 } else { n_corrupt };
+        for k in 1..=n_corrupt {
+            for t in 0..n_texts {
+                let x = h(&[seed, fi as u64, k as u64, t as u64, 0xC0]);
+                let ci = pool[(x % pool.len() as u64) as usize];
+                let feat = match fonts[fi].synth {
+                    None => ((x >> 12) % 4) as u8,
+                    Some(si) => catalog[si].configs[((x >> 12) % catalog[si].configs.len() as u64) as usize],
+                };
+                let mut j = mk(fi, ci, k, feat, (x >> 16) % 2 == 0, x, &fonts);
+                j.script = fonts[fi].script; // corrupted tables are exercised through their own script
+                jobs.push(j);
+            }
+        }
+    }
+    // group by font (and corruption) so that a worker loads each font once and calls it repeatedly
     jobs.sort_by_key(|j| (j.font, j.corrupt));
     (fonts, jobs)
 }
@@ -426,18 +554,46 @@ fn corrupt_font(orig: &[u8], seed: u64, fi: usize, k: u32) -> Option<(Vec<u8>, S
 
 // ---- execution ----------------------------------------------------------------------------------
 
+fn custom(tags: &[(u32, Option<usize>)]) -> Features {
+    Features::Custom(tags.iter().map(|&(t, a)| FeatureInfo { feature_tag: t, alternate: a }).collect())
+}
+
+/// index = position in synth::FEAT_NAMES
 fn features_of(feat: u8) -> Features {
     match feat {
         0 => Features::Mask(FeatureMask::default()),
         1 => Features::Mask(FeatureMask::all()),
-        2 => Features::Custom(
-            [tag::CCMP, tag::LIGA, tag::RLIG, tag::LOCL, tag::INIT, tag::FINA, tag::HALF, tag::AKHN, tag::PRES, tag::ABVS]
-                .iter()
-                .map(|&t| FeatureInfo { feature_tag: t, alternate: None })
-                .collect(),
+        2 => custom(&[tag::CCMP, tag::LIGA, tag::RLIG, tag::LOCL, tag::INIT, tag::FINA, tag::HALF, tag::AKHN, tag::PRES, tag::ABVS].map(|t| (t, None))),
+        3 => Features::Custom(Vec::new()),
+        // the fraction path of the default shaper
+        4 => Features::Mask(FeatureMask::default() | FeatureMask::FRAC),
+        // numeric / ordinal / case features (with frac and afrc)
+        5 => Features::Mask(
+            FeatureMask::default() | FeatureMask::FRAC | FeatureMask::AFRC | FeatureMask::LNUM | FeatureMask::ONUM | FeatureMask::PNUM
+                | FeatureMask::TNUM | FeatureMask::ORDN | FeatureMask::ZERO | FeatureMask::SMCP | FeatureMask::C2SC,
         ),
-        _ => Features::Custom(Vec::new()),
+        // vertical alternates
+        6 => Features::Mask(FeatureMask::default() | FeatureMask::VRT2_OR_VERT),
+        // custom list: alternates (first), features with special handling (fina: last glyph only, rvrn: early,
+        // vert/vrt2: flag), the same tag twice, tags that only GPOS has
+        7 => custom(&[
+            (tag::RVRN, None), (tag4("aalt"), Some(0)), (tag4("salt"), None), (tag::FRAC, None), (tag::LIGA, None), (tag::CCMP, None), (tag::CALT, None),
+            (tag::VERT, None), (tag::VRT2, None), (tag::FINA, None), (tag::LIGA, Some(3)), (tag::CURS, None), (tag::MARK, None), (tag::MKMK, None),
+        ]),
+        8 => Features::Mask(FeatureMask::empty()),
+        // custom list led by positioning features
+        9 => custom(&[
+            (tag::CURS, None), (tag::KERN, None), (tag::DIST, None), (tag::MARK, None), (tag::MKMK, None), (tag4("vkrn"), None), (tag::LIGA, None),
+            (tag::CALT, None), (tag::CCMP, None), (tag::FINA, None),
+        ]),
+        // alternates: second and out-of-range alternate index
+        _ => custom(&[(tag4("aalt"), Some(1)), (tag4("salt"), Some(7)), (tag::LIGA, None), (tag::FRAC, None), (tag::ORDN, None), (tag::FINA, Some(1))]),
     }
+}
+
+/// does the feature selection ask for `frac` (Mask: only the default shaper honours it specially)
+fn asks_frac(feat: u8) -> bool {
+    matches!(feat, 1 | 4 | 5)
 }
 
 fn tag4(s: &str) -> u32 {
@@ -495,18 +651,21 @@ fn event(i: u64, a: &Value, o: Value) -> Value {
 }
 
 fn skipped_obs(shape: &str, msg: &str) -> Value {
-    json!({"map": "Ok", "mapped": [], "shape": shape, "run": [], "pos": "Skipped", "npos": -1, "msg": msg})
+    json!({"map": "Ok", "mapped": [], "shape": shape, "run": [], "pos": "Skipped", "npos": -1, "msg": msg, "f": {}})
 }
 
-fn job_args(fonts: &[FontEntry], cases: &[Vec<String>], j: &Job, idx: usize, wf: bool, ng: i64, cdesc: &str) -> Value {
+fn job_args(fonts: &[FontEntry], cases: &[Case], j: &Job, idx: usize, wf: bool, ng: i64, cdesc: &str) -> Value {
     let spec = script_spec(j.text_script);
     let text = match &j.text {
         Some(t) => t.clone(),
         None => concretise(spec, &cases[j.case], j.salt),
     };
     let empty: Vec<String> = Vec::new();
-    let cls = cases.get(j.case).unwrap_or(&empty);
+    let cls = cases.get(j.case).map(|c| &c.cls).unwrap_or(&empty);
+    let fam = if cases.get(j.case).map_or(false, |c| c.txt) { "txt" } else { "syl" };
     json!({
+        "fam": fam,
+        "vert": j.vert,
         "job": idx,
         "font": fonts[j.font].rel,
         "corrupt": if j.corrupt == 0 { String::new() } else { format!("#{}:{}", j.corrupt, cdesc) },
@@ -524,26 +683,208 @@ fn job_args(fonts: &[FontEntry], cases: &[Vec<String>], j: &Job, idx: usize, wf:
     })
 }
 
-fn load_cases(path: &str) -> Vec<Vec<String>> {
+fn load_cases(path: &str) -> Vec<Case> {
     read_ndjson(path)
         .into_iter()
-        .map(|c| c["cls"].as_array().expect("cls").iter().map(|x| x.as_str().unwrap().to_string()).collect())
+        .map(|c| Case {
+            txt: c["fam"].as_str() == Some("txt"),
+            cls: c["cls"].as_array().expect("cls").iter().map(|x| x.as_str().unwrap().to_string()).collect(),
+        })
         .collect()
 }
 
-/// Runs jobs [from, to) that share one font object. Returns false if the font could not be loaded.
+fn is_default_script(tag: &str) -> bool {
+    !SCRIPTS.iter().any(|s| s.tag == tag && s.tag != "latn") && !matches!(tag, "mym2" | "mlm2" | "dev2" | "bng2" | "gur2" | "gjr2" | "ory2" | "tml2" | "tel2" | "knd2")
+}
+
+/// Facts measured on one returned run: which special-cased path / table boundary the call reached.
+/// They feed the vacuity counters of the driver, never the verdict.
+fn facts(j: &Job, sf: Option<&SynthFont>, mapped: &[(u16, Vec<char>)], infos: &[Info], shape_err: bool) -> BTreeMap<String, u64> {
+    use synth::*;
+    let mut f: BTreeMap<String, u64> = BTreeMap::new();
+    let mut hit = |k: &str| {
+        f.insert(k.to_string(), 1);
+    };
+    let is_mark = |g: u16| g == G_ACUTE || g == G_DOTBELOW;
+    let run_chars: Vec<&[char]> = infos.iter().map(|i| &i.glyph.unicodes[..]).collect();
+    // --- the fraction path of the default shaper (gsub_apply_lookups_frac / find_fraction)
+    let chars: Vec<char> = mapped.iter().map(|(_, u)| u.first().copied().unwrap_or('\0')).collect();
+    if chars.windows(3).any(|w| w[0].is_ascii_digit() && w[1] == '\u{2044}' && w[2].is_ascii_digit()) {
+        hit("text_u2044_between_digits");
+    }
+    if asks_frac(j.feat) && is_default_script(j.script) {
+        if let Some(slash) = chars.iter().position(|&c| c == '/') {
+            let mut start = slash;
+            while start > 0 && chars[start - 1].is_ascii_digit() {
+                start -= 1;
+            }
+            let mut end = slash;
+            while end + 1 < chars.len() && chars[end + 1].is_ascii_digit() {
+                end += 1;
+            }
+            if start < slash && slash < end {
+                let fracfont = sf.map_or(false, |s| s.has_frac);
+                let both = |k: &str, hit: &mut dyn FnMut(&str)| {
+                    hit(k);
+                    if fracfont {
+                        hit(&format!("{}_fracfont", k));
+                    }
+                };
+                both("frac_requested_on_fraction", &mut hit);
+                if start > 0 {
+                    both("frac_fraction_has_prefix", &mut hit);
+                    // the glyphs of the run in front of the glyph that carries the slash
+                    let s_at = run_chars.iter().position(|u| u.contains(&'/')).unwrap_or(run_chars.len());
+                    let before = &run_chars[..s_at];
+                    let letter = |c: &char| !c.is_ascii_digit() && *c != '/';
+                    if before.iter().any(|u| u.len() >= 2 && u.iter().all(letter)) {
+                        both("frac_prefix_ligated", &mut hit);
+                    }
+                    if before.windows(2).any(|w| w[0].len() == 1 && w[0] == w[1] && letter(&w[0][0]) && chars[..start].iter().filter(|c| **c == w[0][0]).count() == 1) {
+                        both("frac_prefix_decomposed", &mut hit);
+                    }
+                    let prefix_chars: usize = before.iter().filter(|u| !u.is_empty() && u.iter().all(letter)).count();
+                    if prefix_chars < start {
+                        both("frac_prefix_shrunk", &mut hit);
+                    }
+                    if end + 1 == chars.len() {
+                        both("frac_fraction_ends_run", &mut hit);
+                    }
+                }
+            }
+        }
+    }
+    // --- placements
+    let n_curs = infos.iter().filter(|i| matches!(i.placement, Placement::CursiveAnchor(..))).count();
+    if n_curs >= 1 {
+        hit("cursive_attachment");
+    }
+    if n_curs >= 2 {
+        hit("cursive_chain_of_3");
+    }
+    if infos.iter().any(|i| matches!(i.placement, Placement::MarkOverprint(_))) {
+        hit("mark_overprint_fallback");
+    }
+    if j.vert {
+        hit("vertical_layout");
+        if infos.iter().any(|i| i.glyph.is_vert_alt()) {
+            hit("vert_alternate_in_vertical_layout");
+        }
+    }
+    if !infos.is_empty() && infos.len() != mapped.len() {
+        let first_changed = infos[0].glyph.glyph_index != mapped[0].0 || infos[0].glyph.unicodes[..] != mapped[0].1[..];
+        let (li, lm) = (infos.last().unwrap(), mapped.last().unwrap());
+        let last_changed = li.glyph.glyph_index != lm.0 || li.glyph.unicodes[..] != lm.1[..];
+        if first_changed {
+            hit("run_length_changed_at_start");
+        }
+        if last_changed {
+            hit("run_length_changed_at_end");
+        }
+    }
+    if infos.is_empty() && !mapped.is_empty() {
+        hit("run_emptied");
+    }
+    let sf = match sf {
+        Some(s) => s,
+        None => return f,
+    };
+    // --- facts that need to know what the synthesized tables contain
+    let nontrivial = shape_err
+        || infos.len() != mapped.len()
+        || infos.iter().zip(mapped.iter()).any(|(i, m)| i.glyph.glyph_index != m.0)
+        || infos.iter().any(|i| i.placement != Placement::None || i.kerning != 0);
+    if nontrivial {
+        hit(&format!("synth_{}_nontrivial", sf.family));
+    }
+    if let Some(counts) = sf.marklig {
+        for (k, info) in infos.iter().enumerate() {
+            if !is_mark(info.glyph.glyph_index) {
+                continue;
+            }
+            let base = (0..k).rev().find(|&b| !is_mark(infos[b].glyph.glyph_index));
+            if let Some(b) = base {
+                let lig = match infos[b].glyph.glyph_index {
+                    G_LIG2 => 0,
+                    G_LIG3 => 1,
+                    G_LIG4 => 2,
+                    _ => continue,
+                };
+                let c = info.glyph.liga_component_pos as usize;
+                hit(if c < counts[lig] { "marklig_component_lt_records" } else if c == counts[lig] { "marklig_component_eq_records" } else { "marklig_component_gt_records" });
+                if counts[lig] == 0 {
+                    hit("marklig_no_component_record");
+                }
+                if matches!(info.placement, Placement::MarkAnchor(t, _, _) if t == b) {
+                    hit("marklig_mark_attached_to_ligature");
+                }
+            }
+        }
+    }
+    if sf.family == "mark" {
+        if shape_err && (sf.name.contains("classeq") || sf.name.contains("nc0")) {
+            hit("mark_class_ge_class_count_err");
+        }
+        if shape_err && sf.name.contains("shortbases") {
+            hit("mark_base_array_short_err");
+        }
+        if infos.iter().any(|i| matches!(i.placement, Placement::MarkAnchor(t, _, _) if is_mark(infos.get(t).map_or(0, |b| b.glyph.glyph_index)))) {
+            hit("mark_to_mark_attached");
+        }
+        if sf.name.contains("null") && infos.iter().enumerate().any(|(k, i)| k > 0 && is_mark(i.glyph.glyph_index) && i.placement == Placement::None) {
+            hit("mark_left_unattached_null_anchor_font");
+        }
+    }
+    if sf.name == "edge-alternates" {
+        if infos.iter().any(|i| i.glyph.glyph_index == G_XVERT) {
+            hit("alternate_second_selected");
+        }
+        if infos.iter().any(|i| i.glyph.glyph_index == G_XALT || i.glyph.glyph_index == G_I) {
+            hit("alternate_first_selected");
+        }
+    }
+    if let Some(m) = sf.fv_marker {
+        if j.tuple == 2 && infos.iter().any(|i| i.glyph.glyph_index == m) {
+            hit("feature_variation_substitution_applied");
+        }
+    }
+    if sf.name == "edge-lastgid" && infos.iter().any(|i| i.glyph.glyph_index == G_LAST) {
+        hit("last_glyph_id_in_run");
+    }
+    if sf.name == "edge-missinggid" && infos.iter().any(|i| i.glyph.glyph_index == 0 && i.glyph.unicodes.is_empty()) {
+        hit("missing_glyph_id_replaced");
+    }
+    if sf.gpos.is_none() && sf.kern.is_some() && infos.iter().any(|i| i.kerning != 0) {
+        hit("kern_table_fallback_applied");
+    }
+    if sf.gdef.is_none() && nontrivial {
+        hit("gdef_absent_nontrivial");
+    }
+    if sf.name.starts_with("edge-emptycov") {
+        hit("empty_coverage_font_shaped");
+    }
+    if sf.name == "edge-badlangsys" && shape_err {
+        hit("bad_langsys_err");
+    }
+    f
+}
+
+/// Runs jobs [from, to) that share one font: one Font object serves consecutive calls (a fresh one
+/// only after a panic), so every call but the first sees the caches earlier calls left behind,
+/// including those of calls that returned Err.
 fn run_group(
     shared: &Arc<Shared>,
     fonts: &[FontEntry],
-    cases: &[Vec<String>],
+    catalog: &[SynthFont],
+    cases: &[Case],
     jobs: &[Job],
     range: std::ops::Range<usize>,
     seed: u64,
     stats: &mut Stats,
 ) {
     let j0 = &jobs[range.start];
-    let path = format!("{}/tests/fonts/{}", repo_root(), fonts[j0.font].rel);
-    let orig = std::fs::read(&path).unwrap_or_else(|e| panic!("read {}: {}", path, e));
+    let sf: Option<&SynthFont> = fonts[j0.font].synth.map(|si| &catalog[si]);
+    let orig = font_bytes(&fonts[j0.font], catalog);
     let (bytes, cdesc) = if j0.corrupt == 0 {
         (orig, String::new())
     } else {
@@ -553,14 +894,14 @@ fn run_group(
                 // nothing to corrupt in this font: the jobs are recorded as not applicable
                 for idx in range {
                     let a = job_args(fonts, cases, &jobs[idx], idx, false, 0, "none");
-                    write_event(shared, idx as u64, &a, json!({"map": "Skipped", "mapped": [], "shape": "Skipped", "run": [], "pos": "Skipped", "npos": -1, "msg": "no layout table"}));
+                    write_event(shared, idx as u64, &a, json!({"map": "Skipped", "mapped": [], "shape": "Skipped", "run": [], "pos": "Skipped", "npos": -1, "msg": "no layout table", "f": {}}));
                     stats.not_applicable += 1;
                 }
                 return;
             }
         }
     };
-    let wf = j0.corrupt == 0;
+    let wf = j0.corrupt == 0 && sf.map_or(true, |s| s.wf);
     let mut idx = range.start;
     while idx < range.end {
         // (re)load the font: a fresh object at the start and after every panic
@@ -575,10 +916,13 @@ fn run_group(
         let (mut font, fvar_data) = match loaded {
             Outcome::Returned(Some(x)) => x,
             Outcome::Returned(None) | Outcome::Panicked(_) => {
+                if sf.is_some() && j0.corrupt == 0 {
+                    panic!("synthesized font {} does not load: the generator is wrong", fonts[j0.font].rel);
+                }
                 // corrupted layout tables never prevent loading; anything else is reported as unloadable
                 for k in idx..range.end {
                     let a = job_args(fonts, cases, &jobs[k], k, wf, 0, &cdesc);
-                    write_event(shared, k as u64, &a, json!({"map": "Skipped", "mapped": [], "shape": "Skipped", "run": [], "pos": "Skipped", "npos": -1, "msg": "font does not load"}));
+                    write_event(shared, k as u64, &a, json!({"map": "Skipped", "mapped": [], "shape": "Skipped", "run": [], "pos": "Skipped", "npos": -1, "msg": "font does not load", "f": {}}));
                     stats.unloadable += 1;
                 }
                 return;
@@ -596,6 +940,8 @@ fn run_group(
             vec![None, mk(0), mk(8192)]
         };
         let mut poisoned = false;
+        let mut had_err = false; // this Font object has already returned Err from shape
+        let mut calls = 0u64;
         while idx < range.end && !poisoned {
             let j = &jobs[idx];
             let a = job_args(fonts, cases, j, idx, wf, ng, &cdesc);
@@ -608,7 +954,15 @@ fn run_group(
             let lang = if j.use_lang { Some(tag4(script_spec(j.text_script).lang)) } else { None };
             let feats = features_of(j.feat);
             let tuple = tuples[j.tuple as usize].as_ref().map(|t| t.as_tuple());
-            let mut o = json!({"map": "Skipped", "mapped": [], "shape": "Skipped", "run": [], "pos": "Skipped", "npos": -1, "msg": ""});
+            let mut o = json!({"map": "Skipped", "mapped": [], "shape": "Skipped", "run": [], "pos": "Skipped", "npos": -1, "msg": "", "f": {}});
+            let mut fx: BTreeMap<String, u64> = BTreeMap::new();
+            if calls > 0 {
+                fx.insert("call_on_used_font".into(), 1);
+            }
+            if had_err {
+                fx.insert("call_on_font_after_err".into(), 1);
+            }
+            calls += 1;
             match guarded(|| font.map_glyphs(&text, script, MatchingPresentation::NotRequired)) {
                 Outcome::Panicked(m) => {
                     o["map"] = json!("Panic");
@@ -618,6 +972,7 @@ fn run_group(
                 Outcome::Returned(glyphs) => {
                     o["map"] = json!("Ok");
                     o["mapped"] = project_raw(&glyphs);
+                    let mapped: Vec<(u16, Vec<char>)> = glyphs.iter().map(|g| (g.glyph_index, g.unicodes.to_vec())).collect();
                     let shaped = guarded(|| font.shape(glyphs, script, lang, &feats, tuple, j.kern));
                     let infos: Option<Vec<Info>> = match shaped {
                         Outcome::Panicked(m) => {
@@ -633,13 +988,18 @@ fn run_group(
                         Outcome::Returned(Err((e, infos))) => {
                             o["shape"] = json!("Err");
                             o["msg"] = json!(format!("{:?}", e));
+                            if had_err {
+                                fx.insert("err_again_on_same_font".into(), 1);
+                            }
+                            had_err = true;
                             Some(infos)
                         }
                     };
                     if let Some(infos) = infos {
                         o["run"] = project_infos(&infos);
+                        fx.extend(facts(j, if j.corrupt == 0 { sf } else { None }, &mapped, &infos, o["shape"] == json!("Err")));
                         let dir = if j.rtl { TextDirection::RightToLeft } else { TextDirection::LeftToRight };
-                        match guarded(|| GlyphLayout::new(&mut font, &infos, dir, false).glyph_positions()) {
+                        match guarded(|| GlyphLayout::new(&mut font, &infos, dir, j.vert).glyph_positions()) {
                             Outcome::Panicked(m) => {
                                 o["pos"] = json!("Panic");
                                 o["msg"] = json!(m);
@@ -660,7 +1020,8 @@ fn run_group(
                 }
             }
             shared.active.store(false, Ordering::SeqCst);
-            stats.count(&o);
+            o["f"] = json!(fx);
+            stats.count(&o, sf.is_some(), a["fam"].as_str() == Some("txt"));
             write_event(shared, idx as u64, &a, o);
             idx += 1;
         }
@@ -691,11 +1052,29 @@ struct Stats {
     unloadable: u64,
     not_applicable: u64,
     nontrivial: u64,
+    synth_jobs: u64,
+    txt_jobs: u64,
+    txt_jobs_repo_fonts: u64,
+    facts: BTreeMap<String, u64>, // events per fact
 }
 
 impl Stats {
-    fn count(&mut self, o: &Value) {
+    fn count(&mut self, o: &Value, synth: bool, txt: bool) {
         self.jobs += 1;
+        if synth {
+            self.synth_jobs += 1;
+        }
+        if txt {
+            self.txt_jobs += 1;
+            if !synth {
+                self.txt_jobs_repo_fonts += 1;
+            }
+        }
+        if let Some(f) = o["f"].as_object() {
+            for k in f.keys() {
+                *self.facts.entry(k.clone()).or_insert(0) += 1;
+            }
+        }
         match o["shape"].as_str().unwrap_or("") {
             "Ok" => self.shape_ok += 1,
             "Err" => self.shape_err += 1,
@@ -729,15 +1108,21 @@ impl Stats {
         }
     }
     fn json(&self) -> Value {
-        json!({"jobs": self.jobs, "shape_ok": self.shape_ok, "shape_err": self.shape_err, "panics": self.panics,
+        let mut v = json!({"jobs": self.jobs, "shape_ok": self.shape_ok, "shape_err": self.shape_err, "panics": self.panics,
                "pos_err": self.pos_err, "runs_with_attachment": self.with_attach, "runs_with_inserted_dotted_circle": self.with_dotted_circle,
-               "runs_with_ligature": self.ligated, "unloadable": self.unloadable, "not_applicable": self.not_applicable, "nontrivial": self.nontrivial})
+               "runs_with_ligature": self.ligated, "unloadable": self.unloadable, "not_applicable": self.not_applicable, "nontrivial": self.nontrivial,
+               "jobs_on_synthesized_fonts": self.synth_jobs, "jobs_text_classes": self.txt_jobs, "jobs_text_classes_on_repository_fonts": self.txt_jobs_repo_fonts});
+        for (k, n) in &self.facts {
+            v[format!("f_{}", k)] = json!(n);
+        }
+        v
     }
 }
 
 fn worker(tier: &str, seed: u64, cases_path: &str, trace: Option<&str>, from: usize, to: usize) {
     let cases = load_cases(cases_path);
     let (fonts, jobs) = build_plan(tier, seed, &cases);
+    let catalog = synth::catalog();
     let to = to.min(jobs.len());
     let writer = trace.map(|t| {
         std::io::BufWriter::new(std::fs::OpenOptions::new().create(true).append(true).open(t).unwrap_or_else(|e| panic!("open {}: {}", t, e)))
@@ -783,7 +1168,7 @@ fn worker(tier: &str, seed: u64, cases_path: &str, trace: Option<&str>, from: us
         while end < to && jobs[end].font == jobs[idx].font && jobs[end].corrupt == jobs[idx].corrupt {
             end += 1;
         }
-        run_group(&shared, &fonts, &cases, &jobs, idx..end, seed, &mut stats);
+        run_group(&shared, &fonts, &catalog, &cases, &jobs, idx..end, seed, &mut stats);
         idx = end;
     }
     if trace.is_some() {
@@ -810,6 +1195,7 @@ fn exec_one(spec: &str) {
         use_lang: !lang.is_empty(),
         feat: FEAT_NAMES.iter().position(|n| Some(*n) == a["feat"].as_str()).unwrap_or(0) as u8,
         kern: a["kern"].as_bool().unwrap_or(true),
+        vert: a["vert"].as_bool().unwrap_or(false),
         tuple: TUPLE_NAMES.iter().position(|n| Some(*n) == a["tuple"].as_str()).unwrap_or(0) as u8,
         rtl: a["dir"].as_str() == Some("rtl"),
         salt: 0,
@@ -818,7 +1204,7 @@ fn exec_one(spec: &str) {
     let shared = Arc::new(Shared { active: AtomicBool::new(false), start_cpu: AtomicU64::new(0), current: Mutex::new(None), writer: Mutex::new(None) });
     let mut stats = Stats::default();
     let jobs = vec![job];
-    run_group(&shared, &fonts, &[], &jobs, 0..1, a["seed"].as_u64().unwrap_or(1), &mut stats);
+    run_group(&shared, &fonts, &synth::catalog(), &[], &jobs, 0..1, a["seed"].as_u64().unwrap_or(1), &mut stats);
 }
 
 fn count_lines(path: &str) -> usize {
@@ -909,6 +1295,7 @@ fn supervisor(tier: &str, seed: u64, cases_path: &str, outdir: &str, nworkers: u
     }
     total.insert("plan".into(), json!(n));
     total.insert("fonts".into(), json!(fonts.len()));
+    total.insert("synth_fonts".into(), json!(fonts.iter().filter(|f| f.synth.is_some()).count()));
     total.insert("aborts".into(), json!(aborts));
     total.insert("timeouts".into(), json!(timeouts));
     total.insert("workers".into(), json!(nworkers));
